@@ -298,12 +298,23 @@ func zzH_C15() {
 // and Close closes every connection ever dialed.
 func zzH_TRlim() {
 	z := &zzWorld{up: map[string]bool{"a": true, "b": true}, dials: map[string]int{}}
-	lim := [][2]int{{2, 1}, {3, 1}, {3, 2}, {2, 2}}[vChoose("limits", vParam("trlim.limits", 4))]
-	t := zzNewTransport(z, lim[0], lim[1])
+	raw := [][2]int{{2, 1}, {0, 0}, {2, 5}, {3, 1}, {3, 2}, {2, 2}, {-1, 3}, {1, 0}}[vChoose("limits", vParam("trlim.limits", 4))]
+	t := zzNewTransport(z, raw[0], raw[1])
+	// documented normalisation: non-positive limits fall back to the defaults (1 and 1), an idle limit
+	// above the connection limit is clamped to it
+	lim := raw
+	if lim[0] < 1 {
+		lim[0] = DefaultMaxConnsPerHost
+	}
+	if lim[1] < 1 {
+		lim[1] = DefaultMaxIdleConnsPerHost
+	} else if lim[1] > lim[0] {
+		lim[1] = lim[0]
+	}
 	vSetTimerBudget(vParam("tr.ticks", 2))
 	arg := []byte{0x31}
 	for round := 0; round < vParam("trlim.rounds", 2); round++ {
-		for i := 0; i < lim[0]; i++ {
+		for i := 0; i < lim[0]+1; i++ {
 			var reply []byte
 			vAssert(t.Call("a", "S.Echo", &arg, &reply) == nil, "reply-ok")
 			vAssert(z.live("a") <= lim[0], "open-conns-within-MaxConnsPerHost")
